@@ -49,7 +49,7 @@ func init() {
 		Harnesses: func(tier string) []HarnessSpec {
 			return []HarnessSpec{
 				{Pkg: "internal/validator", Fn: "VerifC09Equiv", Reach: []string{"compile-failed", "validated-both"}, Bounds: map[string]any{"runs": 2}},
-				{Pkg: "internal/validator", Fn: "VerifC09History", Reach: []string{"validated-3"}, Bounds: map[string]any{"history_length": 3}},
+				{Pkg: "internal/validator", Fn: "VerifC09History", Native: "VerifC09HistoryNative", Reach: []string{"validated-3"}, Bounds: map[string]any{"history_length": 3}},
 			}
 		},
 		Assumptions: append([]string{"OPA compile/eval are functions of (module text modulo renumbering of generated identifiers, input); a PreparedEvalQuery is immutable under Eval (dependency contract)", "histories of length 3; call 3 repeats call 1's stub outcomes"}, stubAssume...),
@@ -88,11 +88,13 @@ func init() {
 				return []HarnessSpec{
 					{Pkg: "internal/parser/path", Fn: "VerifC16Parse5", Reach: []string{"accepted", "accepted-sentence", "rejected"}, Bounds: map[string]any{"length": "1..5 ASCII bytes", "paren_depth": 3}},
 					{Pkg: "internal/parser/path", Fn: "VerifC16Variants5", Reach: []string{"sentence"}, Bounds: map[string]any{"length": "1..5 ASCII bytes"}},
+					{Pkg: "internal/parser/path", Fn: "VerifC16Edits", Reach: []string{"accepted", "rejected"}, Bounds: map[string]any{"sentences": 10, "edits": "insert/replace one symbolic byte at any position, delete one byte, append two symbolic bytes"}},
 				}
 			}
 			return []HarnessSpec{
 				{Pkg: "internal/parser/path", Fn: "VerifC16Parse4", Reach: []string{"accepted", "accepted-sentence", "rejected"}, Bounds: map[string]any{"length": "1..4 ASCII bytes", "paren_depth": 3}},
 				{Pkg: "internal/parser/path", Fn: "VerifC16Variants3", Reach: []string{"sentence"}, Bounds: map[string]any{"length": "1..3 ASCII bytes"}},
+				{Pkg: "internal/parser/path", Fn: "VerifC16Edits", Reach: []string{"accepted", "rejected"}, Bounds: map[string]any{"sentences": 10, "edits": "insert/replace one symbolic byte at any position, delete one byte, append two symbolic bytes"}},
 			}
 		},
 		Assumptions: []string{
@@ -118,6 +120,7 @@ func init() {
 					{Pkg: g, Fn: "VerifC13SetValues3", Reach: []string{"lexed"}, Bounds: b(3)},
 					{Pkg: g, Fn: "VerifC13Pattern3", Reach: []string{"lexed"}, Bounds: b(3)},
 					{Pkg: g, Fn: "VerifC13ParseMessage", Reach: []string{"parsed"}},
+					{Pkg: g, Fn: "VerifC13MessageBraces4", Reach: []string{"lexed"}, Bounds: map[string]any{"text": "0..4 characters from the representative alphabet (braces included)"}},
 				}
 			}
 			return []HarnessSpec{
@@ -127,6 +130,7 @@ func init() {
 				{Pkg: g, Fn: "VerifC13MessageVars1", Reach: []string{"lexed"}, Bounds: map[string]any{"text": "0..1 characters each side of the placeholder, from a 12-character representative alphabet"}},
 				{Pkg: g, Fn: "VerifC13SetValues2", Reach: []string{"lexed"}, Bounds: b(2)},
 				{Pkg: g, Fn: "VerifC13Pattern2", Reach: []string{"lexed"}, Bounds: b(2)},
+				{Pkg: g, Fn: "VerifC13MessageBraces3", Reach: []string{"lexed"}, Bounds: map[string]any{"text": "0..3 characters from the representative alphabet (braces included)"}},
 			}
 		},
 		Assumptions: []string{
@@ -162,7 +166,7 @@ func init() {
 		Rule: "one state = one feasible path of parse+generate (or BuildReport) executed twice: once with every Go map ranged in insertion order, once under one of the explored iteration-order deviations; a state is one deviation",
 		Harnesses: func(tier string) []HarnessSpec {
 			return []HarnessSpec{
-				{Pkg: "internal/validator", Fn: "VerifC06Generate", Native: "VerifC06GenerateNative", Reach: []string{"generated-twice"}, Bounds: map[string]any{"profiles": 3, "map_orders": "all maps reversed | all rotated | one iteration site arbitrarily permuted (n<=4: all n!)"}},
+				{Pkg: "internal/validator", Fn: "VerifC06Generate", Native: "VerifC06GenerateNative", Reach: []string{"generated-twice"}, Bounds: map[string]any{"profiles": 4, "map_orders": "all maps reversed | all rotated | one iteration site arbitrarily permuted (n<=4: all n!)"}},
 				{Pkg: "internal/validator", Fn: "VerifC06Report", Reach: []string{"built-twice"}, Bounds: map[string]any{"results": "1..2 violations + 1 warning, nested sub-results and locations"}},
 			}
 		},
@@ -179,12 +183,12 @@ func init() {
 		Harnesses: func(tier string) []HarnessSpec {
 			if tier == "thorough" {
 				return []HarnessSpec{
-					{Pkg: "internal/generator", Fn: "VerifC01Skeleton2W3", Reach: []string{"tree-built", "dispatched"}, Bounds: map[string]any{"depth": 2, "width": "2..3", "shapes": 1737}},
+					{Pkg: "internal/generator", Fn: "VerifC01Skeleton2W4", Reach: []string{"tree-built", "dispatched"}, Bounds: map[string]any{"depth": 2, "width": "2..4"}},
 					{Pkg: "internal/generator", Fn: "VerifC01SkeletonSpine4", Reach: []string{"tree-built", "dispatched"}, Bounds: map[string]any{"depth": 4, "shape": "one deep operand, others atoms"}},
 				}
 			}
 			return []HarnessSpec{
-				{Pkg: "internal/generator", Fn: "VerifC01Skeleton2", Reach: []string{"tree-built", "dispatched"}, Bounds: map[string]any{"depth": 2, "width": 2, "shapes": 331}},
+				{Pkg: "internal/generator", Fn: "VerifC01Skeleton2W3", Reach: []string{"tree-built", "dispatched"}, Bounds: map[string]any{"depth": 2, "width": "2..3", "shapes": 1737}},
 				{Pkg: "internal/generator", Fn: "VerifC01SkeletonSpine3", Reach: []string{"tree-built", "dispatched"}, Bounds: map[string]any{"depth": 3, "shape": "one deep operand, others atoms"}},
 			}
 		},
